@@ -9,6 +9,7 @@ pub struct Probe<T>(PhantomData<T>);
 
 pub trait Fallback {
 	const IS_CEL: bool = false;
+	const IS_DWMT: bool = false;
 	fn mel() -> Option<usize> {
 		None
 	}
@@ -22,4 +23,7 @@ impl<T: MaxEncodedLen> Probe<T> {
 }
 impl<T: ConstEncodedLen> Probe<T> {
 	pub const IS_CEL: bool = true;
+}
+impl<T: parity_scale_codec::DecodeWithMemTracking> Probe<T> {
+	pub const IS_DWMT: bool = true;
 }
